@@ -1,6 +1,7 @@
 package client
 
 import (
+	"context"
 	"bytes"
 	"time"
 
@@ -127,6 +128,37 @@ func zzC12_retransmit_ack() {
 		symAssert(w.mid == mid, "every transmitted copy is the registered request, not a recycled message")
 	}
 	cc.ReleaseMessage(other)
+}
+
+// the application releases the response the moment Do returns, while the receive path that delivered it is still
+// finishing: the message goes back to the pool exactly once
+func zzC12_release_race() {
+	symGhost(true)
+	s := zzNewSession()
+	cc := zzNewConn(s, zzConnCfg{midSeed: 1000, nstart: 2, maxRetrans: 2, ackTimeout: 1 << 30, poolSize: 1024})
+	symSetNow(time.Unix(0, 1<<41))
+	done := false
+	var err error
+	go func() {
+		req := pool.NewMessage(context.Background())
+		req.SetCode(codes.GET)
+		req.SetToken(message.Token{0xA1})
+		_ = req.SetPath("/a")
+		var resp *pool.Message
+		resp, err = cc.Do(req)
+		if err == nil {
+			cc.ReleaseMessage(resp)
+		}
+		done = true
+	}()
+	zzWaitWritten(s, 1)
+	zzAnswer(cc, s.written[0], 1, symChoose("style", 2), 1)
+	symWaitUntil(func() bool { return done })
+	symIdle()
+	symAssert(err == nil, "answered request succeeds")
+	x, y := cc.AcquireMessage(cc.Context()), cc.AcquireMessage(cc.Context())
+	symAssert(x != y, "the pool never hands one message to two owners")
+	symCover("raced")
 }
 
 // response writer: SetMessage releases the replaced message, Swap does not
